@@ -85,7 +85,11 @@ impl LazyRecordIterator<'_> {
 
     /// Parse a record without a schema
     fn parse_record_raw(&mut self) -> Result<Record> {
-        let mut values = Vec::with_capacity(self.header.field_count as usize);
+        // The field count comes from the header: a record cannot hold more 32-bit
+        // fields than the data has room for
+        let mut values = Vec::with_capacity(
+            (self.header.field_count as usize).min(self.cursor.get_ref().len() / 4),
+        );
 
         for _ in 0..self.header.field_count {
             // Without a schema, we assume all fields are 32-bit integers
@@ -146,9 +150,8 @@ impl<'a> LazyDbcParser<'a> {
     pub fn get_record(&self, index: u32) -> Result<Record> {
         if index >= self.header.record_count {
             return Err(Error::OutOfBounds(format!(
-                "Record index out of bounds: {} (max: {})",
-                index,
-                self.header.record_count - 1
+                "Record index out of bounds: {} (record count: {})",
+                index, self.header.record_count
             )));
         }
 
@@ -194,7 +197,10 @@ impl<'a> LazyDbcParser<'a> {
 
     /// Parse a record without a schema
     fn parse_record_raw(&self, cursor: &mut Cursor<&'a [u8]>) -> Result<Record> {
-        let mut values = Vec::with_capacity(self.header.field_count as usize);
+        // The field count comes from the header: a record cannot hold more 32-bit
+        // fields than the data has room for
+        let mut values =
+            Vec::with_capacity((self.header.field_count as usize).min(self.data.len() / 4));
 
         for _ in 0..self.header.field_count {
             // Without a schema, we assume all fields are 32-bit integers
